@@ -65,10 +65,10 @@ pub fn boundary_values() -> Vec<V> {
     for i in [i64::MIN, -1, 0, 1, 2, 18, 19, 63, 64, 65, 100, 255, 256, 0xD800, 0x10FFFF, 0x110000, 1 << 31, (1 << 32) + 1, i64::MAX] {
         v.push(V::Int(i));
     }
-    for f in [0.0, -0.0, 0.5, -1.5, 1e308, -1e308, f64::INFINITY, f64::NEG_INFINITY, f64::NAN, 4294967296.5, 1e19, -1e19] {
+    for f in [0.0, -0.0, 0.5, -1.5, 1e308, -1e308, f64::MAX, f64::MIN, 5e-324, 9007199254740993.0, f64::INFINITY, f64::NEG_INFINITY, f64::NAN, 4294967296.5, 1e19, -1e19] {
         v.push(V::Float(f));
     }
-    for s in ["", "a", "-9223372036854775808", "9223372036854775808", "1e400", "nan", "é€𝄞", "x", "w", "r", "{}", "{", "}", "{:>5}", "{9}", "{:x}", "/", "."] {
+    for s in ["", "a", "-9223372036854775808", "9223372036854775808", "1e400", "nan", "é€𝄞", "x", "w", "r", "{}", "{", "}", "{:>5}", "{9}", "{:x}", "{18446744073709551615}", "{:{<5}", "/", "."] {
         v.push(V::Str(s.into()));
     }
     v.push(V::Char('\0'));
